@@ -62,6 +62,12 @@ def nat_orth(rng):
         for s in range(2):
             y = Y[ik][s]
             e = max(e, np.abs(y.conj().T @ at.O(y) - np.eye(3)).max(), np.abs(orth(at, y) - y).max())
+    # a badly conditioned but full-rank set (singular values spanning 3e5): the symmetric orthonormalisation still reaches ~ cond^2 * eps,
+    # compared on the scale 1e-3 (reported as error / 1e5 so that the common 1e-8 threshold applies)
+    u, _, vh = np.linalg.svd(rnd(rng, len(at.Gk2c[0]), 3), full_matrices=False)
+    Wbad = [np.stack([(u * np.array([1.0, 3e-3, 3e-6])) @ vh] * 2)] + [rnd(rng, 2, len(at.Gk2c[ik]), 3) for ik in range(1, at.kpts.Nk)]
+    yb = orth(at, Wbad)[0][0]
+    e = max(e, np.abs(yb.conj().T @ at.O(yb) - np.eye(3)).max() / 1e5)
     return e
 
 
@@ -937,6 +943,49 @@ def _register_families():
                                               what=f"slope of the total energy vs 2 Re<grad, D>: xc = {xc}, pot = {pot}, unrestricted = {unres}, kmesh = {km}, s = {smp}"),
                             budget={"quick": 300, "thorough": 600},
                             doc="BOUNDED: derivative relation per functional family (meta-GGA through the Libxc bridge of PySCF) and external potential"))
+
+
+def nat_volume_handedness(rng):
+    """The cell volume that weights O (and with it the sign and size of the Hartree energy) is |det a| for right- AND left-handed lattice
+    matrices; the Hartree energy is >= 0, equals 1/2 sum n phi_r |det a| / Ns and does not depend on the order of the lattice vectors."""
+    import eminus
+    from eminus import Atoms
+    from eminus.dft import get_phi
+    from eminus.energies import get_Ecoul
+
+    eminus.config.backend = "numpy"
+    eminus.config.verbose = "critical"
+    a0 = np.array([[6.0, 0.4, 0.2], [0.3, 6.5, 0.5], [0.1, 0.6, 7.0]])
+    e = 0.0
+    ref = None
+    for perm, flip in (((0, 1, 2), 1), ((1, 0, 2), 1), ((0, 1, 2), -1), ((2, 1, 0), 1), ((1, 2, 0), 1)):
+        a = a0[list(perm)].copy()
+        a[2] *= flip
+        at = Atoms("He", [[0.1, 0.2, 0.3]], ecut=3, a=a)
+        at.s = [8, 8, 8]
+        at.build()
+        det = abs(np.linalg.det(a))
+        e = max(e, abs(float(at.Omega) - det) / det)
+        # the same periodic function on every cell: a fixed combination of plane waves of the lattice
+        r = np.asarray(at.r)
+        b = 2 * np.pi * np.linalg.inv(a).T
+        n = 1.5 + np.cos(r @ b[perm.index(0)]) + 0.5 * np.sin(r @ (b[perm.index(1)] * flip if perm.index(1) == 2 else b[perm.index(1)]))
+        phi = get_phi(at, n)
+        ec = float(get_Ecoul(at, n, phi))
+        phir = np.real(np.asarray(at.I(phi)))
+        half = 0.5 * float(np.sum(n * phir)) * det / at.Ns
+        e = max(e, abs(ec - half) / max(1.0, abs(half)), max(0.0, -ec))
+        if flip == 1:
+            ref = ec if ref is None else ref
+            e = max(e, abs(ec - ref) / max(1.0, abs(ref)))
+    return e
+
+
+register(Obligation(name="C11.cell_volume.abs_det_any_handedness", prop="C11", engine="B", bounded=True,
+                    functions=["eminus.atoms:Atoms.a", "eminus.operators:O", "eminus.energies:get_Ecoul"],
+                    run=BoundedNative(nat_volume_handedness, 1, tol=1e-10, what="Omega = |det a|, Ecoul >= 0, Ecoul = 1/2 sum n phi |det a| / Ns, for permuted and mirrored lattice vectors"),
+                    doc="BOUNDED: the symbolic C11 / C03 obligations take Omega > 0 as given; here the setter of Atoms.a is held to Omega = |det a| for right- and left-handed "
+                        "cells and the Hartree energy to its sign, its value and its independence of the order of the lattice vectors"))
 
 
 def nat_hermitian_even_grid_gga(rng):
